@@ -231,7 +231,7 @@ func (s *readSim) oneStep() {
 	for i, tc := range tagChoices {
 		w[i] = tc.w
 	}
-	tc := tagChoices[pickWNoBenign(d.mod(2, 1000), w)]
+	tc := tagChoices[pickW(d.mod(2, 1000), w)]
 	op.tag = tc.tag
 	op.limit = tc.tag.MaxMessageSize()
 	op.known = op.limit > 0
@@ -482,8 +482,6 @@ func fillPayload(b []byte, seed uint64) {
 	}
 	fillBytes(b[len(b)-64:], seed^0xabcdef)
 }
-
-func pickWNoBenign(r int, w []int) int { return pickW(r, w) }
 
 // drawSize picks a payload size around the tag limit L (L == 0: unknown tag).
 func (s *readSim) drawSize(d *stepDraw, L int, big bool) int {
